@@ -456,7 +456,14 @@ class Grower:
                 return False
             x, (b, f) = a
             e = rng.randint(1, f)
-            bg, en, st = self.iconst([0, 0], base="begin"), self.iconst([b, e], base="end"), self.iconst([1, 1], base="strides")
+            if b == 1 and rng.random() < 0.35:
+                e = 1
+            bg, en = self.iconst([0, 0], base="begin"), self.iconst([b, e], base="end")
+            if (b, e) == (1, 1) and rng.random() < 0.7:
+                st = en    # converters de-duplicate equal small constants: `end` and `strides` are ONE tensor in two operand positions
+                self.tags.add("one_constant_in_two_index_slots")
+            else:
+                st = self.iconst([1, 1], base="strides")
             y = self.new_act([b, e])
             g.op(BO.STRIDED_SLICE, [x, bg, en, st], [y], OPT.StridedSliceOptions, s.StridedSliceOptionsT())
             self.out(y, [b, e])
